@@ -1184,9 +1184,12 @@ impl ObjectFile {
         let block_map = block_map.into_iter()
             .map(|(start, ObjBlock { words, .. })| (start, words))
             .collect();
+        // The symbol table is still needed after assembly if the program has external labels:
+        // the loader has to reject the file and the linker has to resolve them.
+        let keep_sym = debug || sym.label_map.values().any(|data| data.external);
         Ok(Self {
             block_map,
-            sym: debug.then_some(sym),
+            sym: keep_sym.then_some(sym),
         })
     }
 
